@@ -36,6 +36,17 @@ def resolve(F, fn, t, depth=0):
                 pt = pt[1]
             return ("captured", resolve(F, pf, pt, depth + 1), pf.name)
         return t
+    if k == "param" and fn.kind == "closure" and isinstance(t[1], int) and t[1] >= 2:
+        # the parameter of a closure handed to an iterator adapter (`xs.iter().enumerate().map(|(i, x)| ..)`) is an element of
+        # the sequence the adapter is called on
+        pf = F.fns.get(fn.j.get("parent"))
+        if pf is not None and pf.blocks:
+            pfv = F.inlined(pf) if pf.kind in ("closure", "coroutine") else pf
+            for c in pfv.calls():
+                if fn.id in ((c.func or {}).get("arg_cl") or []) and (c.trait or "").endswith("Iterator") and c.args and not pfv.is_cleanup(c.bb):
+                    recv = origin(pfv, c.args[0])
+                    return ("call", "iter::element_of", (resolve(F, pfv, recv, depth + 1),), None, None)
+        return t
     if k == "call":
         return ("call", t[1], tuple(resolve(F, fn, a, depth) for a in t[2]), t[3], t[4])
     if k == "callind":
